@@ -93,6 +93,27 @@ def gen_loop_contracts(pair, d, agb, timeout):
     goto symbol names (which depend on block nesting) from the symbol table of this build."""
     src = os.path.join(VERIF, pair["loops"])
     spec = json.load(open(src))
+    consts = {}
+    if spec.get("consts"):
+        # compile-time constants of the configuration under check (sizeof, limits), evaluated natively with the pair's -D flags;
+        # the loop-contract file is parsed outside the translation unit, so macros and type names are not available there
+        names = sorted(spec["consts"])
+        csrc = os.path.join(d, "consts.c")
+        open(csrc, "w").write('#include <stdio.h>\n#include "mimalloc.h"\n#include "mimalloc/internal.h"\nint main(void){' +
+                              "".join('printf("%%llu\\n",(unsigned long long)(%s));' % spec["consts"][n] for n in names) + "return 0;}\n")
+        flags = list(CONFIGS[pair.get("config", "REL")]) + list(pair.get("defs", []))
+        rc, out, err, _ = run(["gcc", "-std=gnu11", "-I" + os.path.join(REPO, "include")] + flags + [csrc, "-o", os.path.join(d, "consts")], 120, 8)
+        if rc != 0:
+            return None, "loop-contract consts: " + err[-300:]
+        rc, out, err, _ = run([os.path.join(d, "consts")], 30, 8)
+        vals = out.split()
+        if rc != 0 or len(vals) != len(names):
+            return None, "loop-contract consts run: " + (err or out)[-300:]
+        consts = dict(zip(names, vals))
+    def subst(t):
+        for n in sorted(consts, key=len, reverse=True):
+            t = t.replace("$" + n, consts[n] + "ul")
+        return t
     rc, out, err, _ = run(["goto-instrument", "--show-symbol-table", agb], timeout, 8)
     if rc != 0:
         return None, "symbol table: " + err[-300:]
@@ -114,7 +135,7 @@ def gen_loop_contracts(pair, d, agb, timeout):
             e = {"loop_id": str(l["loop"])}
             for k in ("invariants", "assigns", "decreases"):
                 if k in l:
-                    e[k] = l[k]
+                    e[k] = subst(l[k])
             e["symbol_map"] = ";".join(mp)
             ents.append(e)
         fentries.append({fn: ents})
